@@ -117,6 +117,9 @@ def run(ctx):
     chk.rule("R05.5", "partial_deepex = inner(expr, table) * outer(expr, table); lookups compare with the expression's own operator names")
     chk.rule("R05.7", "the names and the functions of a unary composition stay aligned: remove_latest drops index 0 of both, append_after prepends to both")
     chk.rule("R05.6", "every operator name emitted by a rule exists with that arity in FloatOpsFactory and ValOpsFactory")
+    # a flat expression is differentiated as its deep conversion: the per-node converter must not lose a node's unary operators
+    from rules import c03
+    c03.unary_kept(chk, fb, "R05.9")
     body, tab, meta = extract_all(chk, fb, "R05.1")
     jobs = []
     for jid, m in meta.items():
